@@ -64,7 +64,7 @@ func stringOf(v interface{}) string {
 
 func runC03(c *caseWriter) (string, bool, map[string]int) {
 	quick := tier != "thorough"
-	contents := []string{"", "a", "<b>x</b>", "\"><b onmouseover=\"alert(1)\">", "'><i>", "' onx='1", "\" onx=\"1", "&amp;", "&", "&#", "&lt", "<", ">", "</script>", "-->",
+	contents := []string{"../app.js", "%2e%2E/x", "a&quot;b&lt;c&bsol;d&Tab;e", "", "a", "<b>x</b>", "\"><b onmouseover=\"alert(1)\">", "'><i>", "' onx='1", "\" onx=\"1", "&amp;", "&", "&#", "&lt", "<", ">", "</script>", "-->",
 		"javascript:alert(1)", "http://a/b?c=d&e=f", "/t.js", "color:red;", "a{b:c}", "alert(1)", "id1", "x.png 2x, y.png 1x", "_blank", "auto", "async", "lazy", "\x00", "\xff", "\n", "`", "=", " "}
 	contents = append(contents, extraSeeds...)
 	if !quick {
@@ -120,6 +120,9 @@ func runC03(c *caseWriter) (string, bool, map[string]int) {
 			emit(c, "attr_exec", "img", "src", "dq", "/i/", w)
 			emit(c, "attr_exec", "div", "title", "dq", "t: ", w)
 			emit(c, "attr_exec", "a", "data-x", "dq", "", w)
+			emit(c, "attr_exec", "script", "src", "dq", "/static/js/", w)
+			emit(c, "attr_exec", "a", "href", "dq", "/redirect/", w)
+			emit(c, "attr_exec", "form", "action", "dq", "", w)
 		}
 	}
 	// attribute names chosen by a branch, both orders, with safe values whose contents a sanitizer would change
